@@ -390,24 +390,28 @@ func runCapabilities(c *mc.Ctx, r *mc.Result) {
 		return
 	}
 	r.Bounds["capabilities"] = "all 32 combinations of {Flusher, Hijacker, Pusher, read/write deadlines, full duplex} on the underlying writer x the 6 capability calls; Context helpers String/Blob/Stream; Redirect for every code 0..999"
-	for _, cw := range capWriters() {
-		ctx := fox.NewTestContextOnly(cw.w, fx.Req("GET", "", "/"))
-		w := ctx.Writer()
-		type probe struct {
-			name string
-			bit  int
-			call func() error
-			log  string
-		}
-		probes := []probe{
-			{"FlushError", 0, func() error { return w.FlushError() }, "Flush"},
-			{"Push", 2, func() error { return w.Push("/x", nil) }, "Push"},
-			{"SetReadDeadline", 3, func() error { return w.SetReadDeadline(zeroTime) }, "SetReadDeadline"},
-			{"SetWriteDeadline", 3, func() error { return w.SetWriteDeadline(zeroTime) }, "SetWriteDeadline"},
-			{"EnableFullDuplex", 4, func() error { return w.EnableFullDuplex() }, "EnableFullDuplex"},
-			{"Hijack", 1, func() error { _, _, err := w.Hijack(); return err }, "Hijack"},
-		}
-		for _, p := range probes {
+	nCap := len(capWriters())
+	for ci := 0; ci < nCap; ci++ {
+		for pi := 0; pi < 6; pi++ {
+			// a fresh underlying writer and context for every probe: nothing has been sent before the call
+			cw := capWriters()[ci]
+			ctx := fox.NewTestContextOnly(cw.w, fx.Req("GET", "", "/"))
+			w := ctx.Writer()
+			type probe struct {
+				name string
+				bit  int
+				call func() error
+				log  string
+			}
+			probes := []probe{
+				{"FlushError", 0, func() error { return w.FlushError() }, "Flush"},
+				{"Push", 2, func() error { return w.Push("/x", nil) }, "Push"},
+				{"SetReadDeadline", 3, func() error { return w.SetReadDeadline(zeroTime) }, "SetReadDeadline"},
+				{"SetWriteDeadline", 3, func() error { return w.SetWriteDeadline(zeroTime) }, "SetWriteDeadline"},
+				{"EnableFullDuplex", 4, func() error { return w.EnableFullDuplex() }, "EnableFullDuplex"},
+				{"Hijack", 1, func() error { _, _, err := w.Hijack(); return err }, "Hijack"},
+			}
+			p := probes[pi]
 			before := len(cw.w.Calls())
 			err := p.call()
 			r.Evaluations++
@@ -422,6 +426,10 @@ func runCapabilities(c *mc.Ctx, r *mc.Result) {
 			}
 			if has && p.name != "FlushError" && !errors.Is(err, errMarker) {
 				r.Violate("capabilities", "not-delegated", fmt.Sprintf("%s: the underlying writer's result was not returned (err=%v)", p.name, err), cw.mask)
+			}
+			// none of these calls (a flush excepted) forwards a header or a body byte
+			if p.name != "FlushError" && (w.Written() || w.Status() != 200 || w.Size() != 0) {
+				r.Violate("capabilities", "wrong-written", fmt.Sprintf("after %s alone (underlying capability mask %05b, err=%v) Written()=%v Status()=%d Size()=%d although no header and no body byte were forwarded", p.name, cw.mask, err, w.Written(), w.Status(), w.Size()), cw.mask)
 			}
 		}
 	}
